@@ -226,7 +226,10 @@ def run_case(case, ctx=None):
             fails.extend(step_fails[:3])
             if canon(conv) != base_canon:
                 fails.append(("C01/state-depends-on-order-or-mode/" + mode, f"{where}: canonical state differs from the constructor's"))
-            qs = Q if (b["full_query_all_variants"] or only is not None) else P
+            # thorough: the full query set on every permutation and mode (no reliance on state deduplication) up to 3 URI
+            # prefixes; for 4 prefixes the probe set (all strings up to probe_len) on every variant
+            nstrings = sum(len(r.uri_prefixes) for r in recs)
+            qs = Q if ((b["full_query_all_variants"] and nstrings <= 3) or only is not None) else P
             for u in qs:
                 check_query(conv, model, u, fails, where)
             if ctx is not None:
